@@ -11,7 +11,7 @@ func runThoroughExtras(r *Run, def *propertyDef, repo, tags string) {
 		tags string
 		env  []string
 	}{
-		{"tags=fips", "fips", nil},
+		{"tags=fips", "fips", []string{"GOEXPERIMENT=boringcrypto"}},
 		{"GOOS=darwin", "", []string{"GOOS=darwin", "CGO_ENABLED=0"}},
 		{"GOOS=windows", "", []string{"GOOS=windows", "CGO_ENABLED=0"}},
 	}
